@@ -80,9 +80,11 @@ struct Run {
 fn execute(mapping: &[u8], script: &[(usize, Ans)], limit: usize) -> Result<Run, String> {
     let mut sink = ScriptedSink { script, limit, calls: Vec::new(), accepted: Vec::new(), failed: false, vectored_calls: 0 };
     let r = guarded(|| cur::ProguardCache::write(&cur::ProguardMapping::new(mapping), &mut sink).is_ok())?;
-    // divergence while replaying a prefix is a hard machinery error
+    // divergence while replaying a prefix is a hard machinery error (a burst of Interrupted answers that the
+    // writer does not consume completely is not a divergence: the writer may legitimately or wrongly stop earlier)
+    let burst = script.len() >= 2 && script.iter().all(|(_, a)| *a == Ans::Interrupted);
     for (i, _) in script {
-        if *i >= sink.calls.len() {
+        if !burst && *i >= sink.calls.len() {
             eprintln!("MACHINERY-ERROR: sink script index {} beyond the {} calls made (nondeterministic replay)", i, sink.calls.len());
             std::process::exit(2);
         }
